@@ -1,6 +1,7 @@
 import ASV.Drv.J
 import ASV.Spec.Modules
 import ASV.Model.ModulesHmm
+import ASV.Model.ModulesFeature
 namespace ASV.Drv.C14
 open Lean ASV ASV.Drv ASV.Modules
 abbrev Mod := ASV.Modules.Module
@@ -163,6 +164,55 @@ def handleHmm (j : Json) : R Json := do
                 ("reloaded", hmmToJson reloaded), ("tree", hmmToJson h), ("wf", toJson h.WF), ("component", comp)])
   return jObj [("model", exceptJson model)]
 
+def featureToJson (f : ModFeature) : Json :=
+  jObj [("domains", jArr (f.domains.map fun d => jArr [Json.str d.name, Json.str d.locus, toJson d.strand])),
+        ("type", Json.str f.type.str), ("complete", toJson f.complete), ("starter", toJson f.starter),
+        ("final", toJson f.final), ("iterative", toJson f.iterative),
+        ("parents", jStrs (parentNames f.domains []))]
+
+def qualsToJson (q : Quals) : Json :=
+  jArr (q.map fun kv => jArr [Json.str kv.1, match kv.2 with | none => Json.null | some l => jStrs l])
+
+def qualsOfJson (j : Json) : R Quals :=
+  listOf (fun kv => do
+    let k ← asStr (← idx kv 0)
+    let v ← idx kv 1
+    match v with
+    | .null => pure (k, none)
+    | _ => pure (k, some (← listOf asStr v))) j
+
+/-- kind "feature": the reported modules of a gene chain as aSModule features -/
+def handleFeature (j : Json) : R Json := do
+  let genes0 ← listOf geneOfJson (← fld j "genes")
+  let genes := (genes0.zipIdx).map fun (g, i) => { g with index := i }
+  let feats ← arrF j "impl_features"
+  -- every domain feature the implementation's record knows, by name
+  let allDoms ← feats.mapM fun f => do
+    let ds ← fld f "domains"
+    listOf (fun d => do
+      return ((⟨← asStr (← idx d 0), ← asStr (← idx d 1), ← asInt (← idx d 2)⟩ : FDomain),
+              (← asInt (← idx d 3)), (← asInt (← idx d 4)))) ds
+  let known (n : String) : Option FDomain := (allDoms.flatten.find? fun d => d.1.name == n).map (·.1)
+  match chain genes with
+  | .error e => return jObj [("model", jObj [("err", Json.str (errStr e))])]
+  | .ok rs =>
+    let modules := rs.flatMap (·.modules)
+    let mut out : List Json := []
+    for (f, doms) in feats.zip allDoms do
+      let key := doms.map fun d => (d.1.locus, d.2.1, d.2.2)
+      let found := modules.find? fun m => (m.components.map fun c => (c.locus, c.start, c.stop)) == key
+      let quals ← qualsOfJson (← fld f "quals")
+      let reread := match ModFeature.fromBiopython known quals with
+        | .ok g => featureToJson g
+        | .error e => jObj [("err", Json.str (errStr e))]
+      let model := match found with
+        | none => jObj [("err", Json.str "no such module in the model")]
+        | some m => match m.toFeature (doms.map (·.1)) with
+          | .ok g => (featureToJson g).setObjVal! "quals" (qualsToJson g.toBiopython)
+          | .error e => jObj [("err", Json.str (errStr e))]
+      out := out ++ [jObj [("model", model), ("reread", reread)]]
+    return jObj [("model", jObj [("features", jArr out), ("count", toJson modules.length)])]
+
 def handle (j : Json) : R Json := do
   match (← strF j "kind") with
   | "build" => handleBuild j
@@ -171,6 +221,7 @@ def handle (j : Json) : R Json := do
   | "chain" => handleChain j
   | "label" => handleLabel j
   | "hmm" => handleHmm j
+  | "feature" => handleFeature j
   | k => throw s!"C14: unknown kind {k}"
 
 end ASV.Drv.C14
